@@ -89,6 +89,14 @@ func GenSchema(r *rand.Rand, o GenOpts, motif string) *Schema {
 	for i := 0; i < nUser && i < len(baseNames); i++ {
 		names = append(names, baseNames[perm[i]])
 	}
+	if motif == "wide" {
+		// more states than any small-size shortcut of a sort covers (13..18)
+		names = nil
+		for i, k := 0, 13+r.Intn(6); i < k; i++ {
+			names = append(names, fmt.Sprintf("W%02d", i))
+		}
+		r.Shuffle(len(names), func(a, b int) { names[a], names[b] = names[b], names[a] })
+	}
 	nUser = len(names)
 	excPos := r.Intn(nUser + 1)
 	names = append(names[:excPos], append([]string{"Exception"}, names[excPos:]...)...)
@@ -189,6 +197,21 @@ func GenSchema(r *rand.Rand, o GenOpts, motif string) *Schema {
 		for _, i := range users {
 			if r.Float64() < 0.6 {
 				s.Defs[i].Auto = true
+			}
+		}
+	case "wide":
+		// a sparse partial order: a few After and Require edges, nothing that removes
+		for _, i := range users {
+			s.Defs[i] = StateDef{}
+		}
+		for k := 0; k < 2+r.Intn(5); k++ {
+			a, b := users[r.Intn(len(users))], users[r.Intn(len(users))]
+			if a != b && !contains(s.Defs[b].After, a) && !contains(s.Defs[b].Require, a) {
+				if r.Intn(3) == 0 {
+					s.Defs[a].Require = append(s.Defs[a].Require, b)
+				} else {
+					s.Defs[a].After = append(s.Defs[a].After, b)
+				}
 			}
 		}
 	case "after":
@@ -401,6 +424,17 @@ func GenCase(r *rand.Rand, o GenOpts) Case {
 				}
 			}
 		}
+		if nb >= 2 && r.Intn(4) == 0 {
+			// final handlers bound as struct methods that return a value (odd bindings go through
+			// structs when both State and End have a rule): what they return must not matter
+			b := 1
+			for k := 0; k < 1+r.Intn(3); k++ {
+				i := r.Intn(n)
+				lines = append(lines, fmt.Sprintf("rule %d state:%d * %s", b, i, []string{"f", "t"}[r.Intn(2)]))
+				lines = append(lines, fmt.Sprintf("rule %d end:%d * %s", b, i, []string{"f", "f", "t"}[r.Intn(3)]))
+			}
+			tag += "+finalret"
+		}
 		if motif == "autoveto" {
 			// several state-state / enter vetoes aimed at Auto states in one binding
 			b := r.Intn(nb)
@@ -512,6 +546,14 @@ func GenCase(r *rand.Rand, o GenOpts) Case {
 		if r.Float64() < o.WideOps {
 			st = showList(genStatesWide(r, n))
 		}
+		if motif == "wide" && r.Intn(3) != 0 {
+			// (nearly) every state in one mutation
+			all := r.Perm(n)
+			if r.Intn(2) == 0 && n > 14 {
+				all = all[:13+r.Intn(n-13)]
+			}
+			st = showList(all)
+		}
 		if len(s.Health) > 0 && r.Float64() < 0.35 {
 			hs := []int{s.Health[0]}
 			if r.Float64() < 0.6 {
@@ -524,8 +566,15 @@ func GenCase(r *rand.Rand, o GenOpts) Case {
 		switch {
 		case x < o.Checks/2:
 			lines = append(lines, "canadd "+st)
+			if r.Intn(2) == 0 {
+				// the check, then the very mutation it was asked about
+				lines = append(lines, "add "+st)
+			}
 		case x < o.Checks:
 			lines = append(lines, "canremove "+st)
+			if r.Intn(2) == 0 {
+				lines = append(lines, "remove "+st)
+			}
 		case x < o.Checks+0.05:
 			lines = append(lines, "adderr")
 		case x < o.Checks+0.10:
